@@ -18,7 +18,11 @@ CONSTANTS Mode,       \* "seq" or "off"
           MaxHist,
           ResetOnEmpty,   \* mode "off": the caller resets the offsetter when it holds no handle (as the sequencer does)
           BUG_ResetEarly, \* offsetter reset when one slot is still stored
-          BUG_NoVirtual   \* Add does not shift the index by the total discarded so far
+          BUG_NoVirtual,  \* Add does not shift the index by the total discarded so far
+          \* path-sensitive enumeration (PathSpec): park PathK packets, pop some of them in every order,
+          \* park up to PathM more, pop everything; the i-th packet saved carries the number (i * PathMul) % PathMod
+          PathK, PathM, PathMul, PathMod,
+          PathAll         \* TRUE: every pop order in the second round too; FALSE: any stored number first, then ascending
 
 VARIABLES buf, si, ri,           \* ByteBuffer: tokens of data[0:wi], end of save area, end of read area
           tree,                  \* Fenwick array, size MaxBytes
@@ -27,11 +31,12 @@ VARIABLES buf, si, ri,           \* ByteBuffer: tokens of data[0:wi], end of sav
           tail,                  \* caller: just-saved slot not yet taken by Push: [seq, idx, len, failed] or NoSlot
           pop,                   \* caller: popped slot not yet discarded: [idx, len] or NoSlot
           area, mlive, munc, mcfg, bad,   \* monitor
+          ph,                    \* PathSpec only: where the phase-structured caller is (constant in the other specs)
           hist, done
 
 implvars == <<buf, si, ri, tree, sl, bytes, tail, pop>>
 monvars  == <<area, mlive, munc, mcfg, bad>>
-vars     == <<implvars, monvars, hist, done>>
+vars     == <<implvars, monvars, ph, hist, done>>
 
 Mon == INSTANCE SlotSeqMon
 
@@ -78,6 +83,7 @@ Init ==
   /\ area = <<>> /\ mlive = <<>> /\ munc = <<>>
   /\ mcfg = [mode |-> Mode, maxslots |-> MaxSlots, maxbytes |-> MaxBytes] /\ bad = ""
   /\ hist = << Slim([E0 EXCEPT !.ev = "New"]) >>
+  /\ ph = [r |-> 1, parks |-> 0, pops |-> 0, pops2 |-> 0]
   /\ done = FALSE
 
 Idle == tail = NoSlot /\ pop = NoSlot
@@ -163,21 +169,21 @@ ResetAll == /\ Idle /\ si > 0
             /\ Do([E0 EXCEPT !.ev = "ResetAll"], Cut(buf, 0, si), 0, ri - si, Zeros, <<>>, 0, NoSlot, NoSlot)
 
 Step ==
-  /\ UNCHANGED done
+  /\ UNCHANGED <<done, ph>>
   /\ \/ \E s \in Seqs, n \in Sizes, v \in {0, 1} : SaveStep(s, n, v)
      \/ PushStep \/ DropTail \/ DiscardStep
      \/ \E s \in Seqs : PopStep(s)
      \/ \E n \in LiveSizes : Live(n)
      \/ Unc \/ Eat \/ Shrink \/ ResetAll
 
-Finish == /\ ~done /\ done' = TRUE /\ UNCHANGED <<implvars, monvars, hist>>
+Finish == /\ ~done /\ done' = TRUE /\ UNCHANGED <<implvars, monvars, ph, hist>>
 
 Next == IF bad # "" \/ (MaxHist > 0 /\ Len(hist) >= MaxHist) THEN MaxHist > 0 /\ Finish ELSE Step
 Spec == Init /\ [][Next]_vars
 
 \* random long histories: one random enabled action per step, biased towards a full sequencer
 SimStep ==
-  /\ UNCHANGED done
+  /\ UNCHANGED <<done, ph>>
   /\ IF tail # NoSlot THEN PushStep \/ DropTail
      ELSE IF pop # NoSlot THEN DiscardStep
      ELSE \E w \in {RandomElement(1..12)} :
@@ -193,6 +199,38 @@ SimStep ==
          [] OTHER -> IF si > 0 /\ RandomElement(1..6) = 1 THEN ResetAll ELSE UNCHANGED <<implvars, monvars, hist>>
 SimNext == IF bad # "" \/ (MaxHist > 0 /\ Len(hist) >= MaxHist) THEN MaxHist > 0 /\ Finish ELSE SimStep
 SimSpec == Init /\ [][SimNext]_vars
+
+\* ---- path-sensitive bounded-exhaustive enumeration ----
+\* A transition cover continues every model state behind ONE history (the shortest). Two pop orders that
+\* lead to the same model state (the Fenwick array only holds sums) may leave an implementation that
+\* treats some pops specially (a pop at the tail of the save area, a pop in front of parked packets, ...)
+\* in different internal states.  PathSpec is a caller in two rounds - park PathK packets (all sizes), pop
+\* any of them in every order (every subset, draining or not), park up to PathM more, pop everything - and
+\* its VIEW contains the history, so the state graph is the tree of all such histories: every continuation
+\* is generated behind every distinct pop order.  Only complete histories are printed (EmitLeaf); every
+\* prefix is validated with them.
+PSeq(i) == (i * PathMul) % PathMod
+MinHeld == CHOOSE s \in Held : \A t \in Held : s <= t
+PStep ==
+  /\ UNCHANGED done
+  /\ IF tail # NoSlot THEN (PushStep \/ DropTail) /\ UNCHANGED ph
+     ELSE IF pop # NoSlot THEN DiscardStep /\ UNCHANGED ph
+     ELSE \/ /\ ph.r = 1 /\ ph.pops = 0 /\ ph.parks < PathK
+             /\ \E n \in Sizes : SaveStep(PSeq(ph.parks + 1), n, 0)
+             /\ ph' = [ph EXCEPT !.parks = @ + 1]
+          \/ /\ ph.r = 1 /\ ph.parks = PathK /\ sl # <<>>
+             /\ \E s \in Held : PopStep(s)
+             /\ ph' = [ph EXCEPT !.pops = @ + 1]
+          \/ /\ ph.pops >= 1 /\ ph.pops2 = 0 /\ ph.parks < PathK + PathM /\ Len(sl) < MaxSlots
+             /\ \E n \in Sizes : SaveStep(PSeq(ph.parks + 1), n, 0)
+             /\ ph' = [ph EXCEPT !.parks = @ + 1, !.r = 2]
+          \/ /\ ph.r = 2 /\ sl # <<>>
+             /\ \E s \in (IF ph.pops2 = 0 \/ PathAll THEN Held ELSE {MinHeld}) : PopStep(s)
+             /\ ph' = [ph EXCEPT !.pops2 = @ + 1]
+PTerminal == Idle /\ sl = <<>> /\ ph.r = 2
+PNext == IF bad # "" \/ PTerminal THEN Finish ELSE PStep
+PathSpec == Init /\ [][PNext]_vars
+ViewP == <<implvars, monvars, ph, hist, done>>
 
 \* ---- properties ----
 NotBad == bad = ""
